@@ -35,11 +35,12 @@ META = {
     "rule": "estimators: state = operation history (sequence over fit/partial_fit/predict x 4 data sets) on one object, merged on the full "
     "fingerprint; every state is compared with a fresh object driven through the documented suffix; stream subjects: state = "
     "fingerprint reached by query/update histories; non-trivial = every state; distinct = distinct (subject, fingerprint/history)",
-    "assumptions": ["4 data sets (sizes 2-4, different variance / class sets / weights), depth 3 (quick) / 4 (thorough)",
+    "assumptions": ["5 data sets (sizes 2-4, different variance / class sets / weights, one without any label), depth 3 (quick) / 4 (thorough)",
                     "predictions of used and fresh objects are compared with rtol=1e-9"],
 }
 
 DATA = {
+    "D0": ([[0.0], [3.0]], [None, None], None),  # no label at all: an admissible training set that must reset the model just the same
     "D1": ([[0.0], [1.0], [2.0], [4.0]], [0, 1, None, 1], None),
     "D2": ([[0.0], [10.0], [20.0]], [1, 1, 0], None),
     "D3": ([[0.0], [1.0]], [None, 2], None),
@@ -177,7 +178,7 @@ def est_configs():
 
 def bounds(tier):
     return {"estimator_configs": [c[0] for c in est_configs()], "datasets": {k: {"X": v[0], "y": v[1], "w": v[2]} for k, v in DATA.items()},
-            "ops": "fit(D1..D4), partial_fit(D1,D2,D4) where available, predict(Q), set_params(<1-2 changes per estimator>)", "depth": 3 if tier == "quick" else 4,
+            "ops": "fit(D0..D4), partial_fit(D0,D1,D2,D4) where available, predict(Q), set_params(<1-2 changes per estimator>)", "depth": 3 if tier == "quick" else 4,
             "stream_subjects": [s.name for s in SS.ALL], "stream_horizon": 3, "query_points": QX.tolist()}
 
 
@@ -238,7 +239,7 @@ def _same_obs(a, b):
 def check_estimator(acc, name, kind, factory, opts, depth):
     ops = [("fit", d) for d in DATA] + [("predict", None)]
     if opts.get("partial"):
-        ops += [("partial_fit", d) for d in ("D1", "D2", "D4")]
+        ops += [("partial_fit", d) for d in ("D0", "D1", "D2", "D4")]
     changes = param_changes(name)
     ops += [("set", c) for c in changes]
 
@@ -304,6 +305,9 @@ def check_estimator(acc, name, kind, factory, opts, depth):
                         has_w = True
                         for o in suffix:
                             X, y, w = _xyw(o[1], kind, False)
+                            if getattr(fresh_with(h2), "only_labeled", False):
+                                keep = ~np.isnan(y)  # unlabeled samples are discarded on arrival
+                                X, y, w = X[keep], y[keep], (None if w is None else w[keep])
                             if o[0] == "fit":
                                 Xs, ys, ws, has_w = [], [], [], True
                             Xs += list(X)
